@@ -995,6 +995,10 @@ def _logical_file_records(draw, seq=1, max_sets=6, crash_shapes=False, absent=Tr
                 # replacement set: same type and name, new content
                 rep = _generic_set(draw, src['set']['type'], src['lr_type'], origin, absent=absent)
                 further.append(dict(rep, set=dict(rep['set'], role='RSET', name=src['set']['name'])))
+    if draw(ints(0, 5)) == 0:
+        # the ORIGIN set written again, verbatim (as a plain set or marked redundant): one more table of the logical file
+        again = dict(org) if draw(BOOL) else dict(org, set=dict(org['set'], role='RDSET'))
+        further.insert(draw(ints(0, len(further))), again)
     records = [fh, org]
     data = []
     if log_pass:
